@@ -108,7 +108,7 @@ Definition early (p : spc) : bool :=
 (* per-sender facts *)
 Definition lok (s : sender) : bool :=
   (if early (s_pc s) then negb (s_handed s) && match s_errch s with None => true | _ => false end else true)
-  && match s_errch s with Some WTooBig => negb (s_handed s) | _ => true end
+  && match s_errch s with Some WTooBig | Some WCtx => negb (s_handed s) | _ => true end
   && match s_pc s with PWait2 | PCancel => match s_kind s with SCall => true | _ => false end | _ => true end
   && match s_kind s with
      | SCancelFrame => match s_pc s with PAsyncSelect | PRet _ => true | _ => false end && negb (s_notifier s)
@@ -392,14 +392,14 @@ Lemma step_back_cancel : forall sk st l st', step sk st l = Some st' ->
     forall n cs', find n (senders st') = Some cs' -> s_kind cs' = SCancelFrame ->
     (exists cs, find n (senders st) = Some cs /\ s_kind cs = SCancelFrame /\ s_seq cs' = s_seq cs /\
                 (s_handed cs' = true -> s_handed cs = true \/ writer st = None))
-    \/ (exists c s sc', find c (senders st) = Some s /\ s_pc s = PCancel /\ s_seq cs' = s_seq s /\
+    \/ (exists c s sc', n = cancel_nonce c /\ find c (senders st) = Some s /\ s_pc s = PCancel /\ s_seq cs' = s_seq s /\
                         s_handed cs' = false /\
                         find c (senders st') = Some sc' /\ s_pc sc' = PRet RCtx /\ s_kind sc' = s_kind s /\
                         s_seq sc' = s_seq s).
 Proof.
   intros sk st l st' H. step_cases H; intros n cs' Hf Hk; back Hf; simpl in *; try congruence;
     try solve [left; eexists; repeat split; eauto].
-  right. exists c, s, (set_pc (PRet RCtx) s). repeat split; auto.
+  right. exists c, s, (set_pc (PRet RCtx) s). split; [symmetry; apply Z.eqb_eq; assumption|]. repeat split; auto.
   find_upd. rewrite Z.eqb_refl, Heqo. reflexivity.
 Qed.
 
@@ -535,7 +535,7 @@ Lemma step_KInv : forall sk st l st', WF st -> KInv st -> step sk st l = Some st
 Proof.
   intros sk st l st' Hwf IH H n cs' F' K'.
   destruct (step_back_cancel _ _ _ _ H _ _ F' K')
-    as [(cs & F & K & Q & Hhd) | (c & s & sc' & F & P & Q & Hh & Fc' & Pc' & Kc' & Qc')].
+    as [(cs & F & K & Q & Hhd) | (c & s & sc' & _ & F & P & Q & Hh & Fc' & Pc' & Kc' & Qc')].
   - destruct (IH n cs F K) as (c & sc & r & Fc & Kc & Pc & Qc & Ho).
     destruct (step_mono _ _ _ _ H _ _ Fc) as (sc' & Fsc' & Mk & _ & _ & _ & Ms & Mr).
     exists c, sc', r. split; [assumption|]. split; [congruence|]. split; [apply Mr; assumption|].
@@ -1067,6 +1067,134 @@ Proof.
   intros l Ho. destruct l; simpl in Ho; try discriminate Ho; apply Z.eqb_eq in Ho; subst; vm_compute; reflexivity.
 Qed.
 
+(* ------------------------------------------------------------------------------------------------------------ *)
+(* C08: a cancellation frame follows the call frame (safety form)                                               *)
+(* ------------------------------------------------------------------------------------------------------------ *)
+
+Lemma lok_wctx : forall s, lok s = true -> s_errch s = Some WCtx -> s_handed s = false.
+Proof.
+  intros s Hl He. unfold lok in Hl. rewrite He in Hl. destruct (s_handed s); [|reflexivity].
+  simpl in Hl. repeat (rewrite ?andb_false_r in Hl; simpl in Hl). discriminate.
+Qed.
+
+Lemma lok_cancelframe_not_new : forall s, lok s = true -> s_kind s = SCancelFrame -> s_pc s <> PNew.
+Proof.
+  intros s Hl Hk Hp. unfold lok in Hl. rewrite Hk, Hp in Hl. simpl in Hl.
+  repeat (rewrite ?andb_false_r in Hl; simpl in Hl). discriminate.
+Qed.
+
+Lemma step_back_kind : forall sk st l st', step sk st l = Some st' ->
+    forall n x', find n (senders st') = Some x' ->
+    (exists x, find n (senders st) = Some x /\ s_kind x = s_kind x') \/ s_kind x' = SCancelFrame.
+Proof.
+  intros sk st l st' H. step_cases H; intros n x' Hf; back Hf; simpl in *;
+    first [ solve [left; eexists; split; eauto] | solve [right; reflexivity] ].
+Qed.
+
+(* original senders have non-negative nonces; a cancel frame is filed under the cancel nonce of a returned call *)
+Definition NInv (st : wstate) : Prop :=
+  forall n x, find n (senders st) = Some x ->
+    (s_kind x <> SCancelFrame -> 0 <= n) /\
+    (s_kind x = SCancelFrame ->
+     exists c sc r, n = cancel_nonce c /\ find c (senders st) = Some sc /\ s_kind sc = SCall /\ s_pc sc = PRet r).
+
+Lemma step_NInv : forall sk st l st', WF st -> NInv st -> step sk st l = Some st' -> NInv st'.
+Proof.
+  intros sk st l st' Hwf IH H n x' F'. split.
+  - intros Hk. destruct (step_back_kind _ _ _ _ H _ _ F') as [(x & F & K) | K]; [|congruence].
+    apply (IH _ _ F). congruence.
+  - intros Hk.
+    destruct (step_back_cancel _ _ _ _ H _ _ F' Hk)
+      as [(cs & F & K & _ & _) | (c & s & sc' & Hn & F & P & _ & _ & Fc' & Pc' & Kc' & _)].
+    + destruct (IH _ _ F) as [_ IHc]. destruct (IHc K) as (c & sc & r & Hn & Fc & Kc & Pc).
+      destruct (step_mono _ _ _ _ H _ _ Fc) as (sc' & Fsc' & Mk & _ & _ & _ & _ & Mr).
+      exists c, sc', r. split; [assumption|]. split; [assumption|]. split; [congruence | apply Mr; assumption].
+    + exists c, sc', RCtx. split; [assumption|]. split; [assumption|]. split; [|assumption].
+      rewrite Kc'. apply lok_cancel_call; [eapply wf_lok; eassumption | assumption].
+Qed.
+
+Lemma init_NInv : forall ss, fresh_ok ss = true -> NInv (init ss).
+Proof.
+  intros ss Hfr n x F. simpl in F. split.
+  - intros _. pose proof (find_nonce _ _ _ F) as Hn. pose proof (find_In _ _ _ F) as Hin.
+    unfold fresh_ok in Hfr. apply andb_prop in Hfr. destruct Hfr as [Hno _].
+    clear F. revert Hno Hin. induction ss as [|a ss IHs]; simpl; [tauto|].
+    intros Hno [->|Hin].
+    + apply andb_prop in Hno. destruct Hno as [Hno _]. apply andb_prop in Hno. destruct Hno as [Hno _]. lia.
+    + apply andb_prop in Hno. destruct Hno as [_ Hno]. auto.
+  - intros Hk. destruct (fresh_props _ _ _ Hfr F) as (_ & Kn & _). congruence.
+Qed.
+
+(* how a handed call can be found at PRet RCtx after a step *)
+Lemma step_back_retctx : forall sk st l st', WF st -> step sk st l = Some st' ->
+    forall c s', find c (senders st') = Some s' -> s_kind s' = SCall -> s_pc s' = PRet RCtx -> s_handed s' = true ->
+    (exists s, find c (senders st) = Some s /\ s_kind s = SCall /\ s_pc s = PRet RCtx /\ s_handed s = true /\
+               s_seq s' = s_seq s)
+    \/ (exists s, find c (senders st) = Some s /\ s_pc s = PCancel /\ s_seq s' = s_seq s /\
+                  senders st' = update c (set_pc (PRet RCtx)) (senders st) ++
+                                [mkSender (cancel_nonce c) SCancelFrame (s_seq s) true false PAsyncSelect false None
+                                          false false]).
+Proof.
+  intros sk st l st' Hwf H. step_cases H; intros c0 s' Hf Hk Hp Hh; back Hf; simpl in *;
+    try first [ solve [left; eexists; repeat split; eauto] | congruence | discriminate ].
+  - exfalso. pose proof (lok_wctx _ (wf_lok _ Hwf _ _ Heqo) Heqo0). congruence.
+  - right. exists s. repeat split; auto.
+Qed.
+
+Definition CInv (st : wstate) : Prop :=
+  forall c s, find c (senders st) = Some s -> s_kind s = SCall -> s_pc s = PRet RCtx -> s_handed s = true ->
+    exists t, find (cancel_nonce c) (senders st) = Some t /\ s_kind t = SCancelFrame /\ s_seq t = s_seq s.
+
+Lemma step_CInv : forall sk st l st', WF st -> NInv st -> CInv st -> step sk st l = Some st' -> CInv st'.
+Proof.
+  intros sk st l st' Hwf Hn IH H c s' F' K' P' H'.
+  destruct (step_back_retctx _ _ _ _ Hwf H _ _ F' K' P' H') as [(s & F & K & P & Hd & Q) | (s & F & P & Q & Se)].
+  - destruct (IH _ _ F K P Hd) as (t & Ft & Kt & Qt).
+    destruct (step_mono _ _ _ _ H _ _ Ft) as (t' & Ft' & Mk & _ & _ & _ & Ms & _).
+    destruct (Ms (lok_cancelframe_not_new _ (wf_lok _ Hwf _ _ Ft) Kt)) as [Qt' _].
+    exists t'. split; [assumption|]. split; congruence.
+  - pose proof (lok_cancel_call _ (wf_lok _ Hwf _ _ F) P) as K.
+    assert (Hc : 0 <= c) by (apply (Hn _ _ F); congruence).
+    rewrite Se. find_upd.
+    destruct (Z.eqb_spec (cancel_nonce c) c) as [e|ne]; [unfold cancel_nonce in e; lia|].
+    destruct (find (cancel_nonce c) (senders st)) as [x|] eqn:Fx.
+    + exfalso. destruct (Hn _ _ Fx) as [N1 N2].
+      destruct (s_kind x) eqn:Kx;
+        try (assert (0 <= cancel_nonce c) by (apply N1; discriminate); unfold cancel_nonce in *; lia).
+      destruct (N2 eq_refl) as (c1 & sc & r & E1 & Fc & _ & Pc).
+      assert (c1 = c) by (unfold cancel_nonce in E1; lia). subst c1. congruence.
+    + simpl. rewrite Z.eqb_refl. eexists. split; [reflexivity|]. simpl. split; [reflexivity | congruence].
+Qed.
+
+(* a call that returned its context's error after its frame had been handed to the writer has queued a cancel frame
+   carrying its seqno *)
+Theorem ret_ctx_has_cancel_sender : forall sk ss ls st c s,
+    fresh_ok ss = true -> run (step sk) (init ss) ls = Some st ->
+    find c (senders st) = Some s -> s_kind s = SCall -> s_pc s = PRet RCtx -> s_handed s = true ->
+    exists t, find (cancel_nonce c) (senders st) = Some t /\ s_kind t = SCancelFrame /\ s_seq t = s_seq s.
+Proof.
+  intros sk ss ls st c s Hfr Hr.
+  assert (G : WF st /\ NInv st /\ CInv st).
+  { eapply (invariant_run _ _ (step sk) (fun st => WF st /\ NInv st /\ CInv st)); [ | | eassumption].
+    - intros s0 l s1 (Hwf & Hn & Hc) Hst. split; [eapply step_WF; eassumption|].
+      split; [eapply step_NInv; eassumption | eapply step_CInv; eassumption].
+    - split; [apply init_WF; assumption|]. split; [apply init_NInv; assumption|].
+      intros c0 s0 F _ P _. simpl in F. destruct (fresh_props _ _ _ Hfr F) as (P0 & _). congruence. }
+  destruct G as (_ & _ & Hc). apply Hc.
+Qed.
+
+(* and that queued cancel frame can always move: to the writer when it is idle, or away when the encoder is done *)
+Theorem cancel_sender_can_move : forall ss ls st c t,
+    fresh_ok ss = true -> run (step expected_skeleton) (init ss) ls = Some st ->
+    find (cancel_nonce c) (senders st) = Some t -> s_pc t = PAsyncSelect ->
+    (writer st = None -> writer_alive st = true -> step expected_skeleton st (LHandoff (cancel_nonce c)) <> None) /\
+    (done_closed st = true -> step expected_skeleton st (LAbandonDone (cancel_nonce c)) <> None).
+Proof.
+  intros ss ls st c t _ _ F P. split.
+  - intros W A. unfold step. rewrite F, W, A, P. discriminate.
+  - intros D. unfold step. rewrite F, D, P. simpl. discriminate.
+Qed.
+
 Print Assumptions writer_notifier_exact.
 Print Assumptions writer_seqnos_distinct.
 Print Assumptions writer_cancel_after_call.
@@ -1079,3 +1207,5 @@ Print Assumptions stop_unblocks.
 Print Assumptions ctx_unblocks_unrestricted_false.
 Print Assumptions stop_unblocks_unrestricted_false.
 Print Assumptions stop_unblocks_reply_false.
+Print Assumptions ret_ctx_has_cancel_sender.
+Print Assumptions cancel_sender_can_move.
